@@ -514,6 +514,7 @@ theorem handle_wasm_chain (s s' : Sys) (a b : Addr) (c : Call) (d : List (Denom 
       all_goals rfl
     rw [this]; exact sk
 
+set_option maxHeartbeats 2000000 in
 theorem BookInv.step (s s' : Sys) (m : Msg) (rest0 subs : List Msg)
     (inv : BookInv s (m :: rest0)) (hx : s.handle m = .ok (s', subs)) : BookInv s' (subs ++ rest0) := by
   obtain ⟨pre, rest, hq, hpre, hrest, hle⟩ := inv.split
